@@ -58,6 +58,9 @@ Clauses(e) ==
       \* action that option stands for is never taken
       SwitchedOffPayloadNeverUsed |->
           (e.ev = "TapAct" /\ "forbid" \in DOMAIN Cfg) => e.action \notin SetOf(Cfg.forbid),
+      \* a kill-chain stage whose handler "performs a trial using the stage probability" and whose probability is 0 never acts
+      ZeroProbabilityStageNeverActs |->
+          (e.ev = "TapAct" /\ "zeroStages" \in DOMAIN Cfg) => e.s0 \notin SetOf(Cfg.zeroStages),
       \* ---- probabilistic agents
       ChoiceInTable        |-> e.ev = "Choose" => InTable(e.choice),
       NeverZeroProbability |-> e.ev = "Choose" => Positive(e.choice),
